@@ -76,6 +76,12 @@ mut("C01", "r5-manage-no-lock", "modules/mgmt.go",
     "\t// lock mgmt\n\tmgmtLock.Lock()\n\tdefer mgmtLock.Unlock()\n\n\tlog.Info(\"modules: managing changes\")", "\tlog.Info(\"modules: managing changes\")", "C01-R5|mgmtLock")
 mut("C01", "r5-start-tree-after-start", "modules/start.go",
     "\t// build dependency tree\n\tbuildEnabledTree()\n\n\t// start modules\n\tlog.Info(\"modules: initiating...\")\n\terr = startModules()", "\t// start modules\n\tlog.Info(\"modules: initiating...\")\n\terr = startModules()\n\tbuildEnabledTree()", "C01-R5|modules.Start")
+mut("C01", "r6-stop-aborts-on-error", "modules/stop.go",
+    "\t\t\t\tlastErr = rep.err\n", "\t\t\t\treturn rep.err\n", "C01-R6|stopModules / return", comment="round-2 seed C01-b2")
+mut("C01", "r8-ctrlflag-after-cancel", "modules/modules.go",
+    "\tm.ctrlFuncRunning.Set()\n\n\t// Set stop flag for everyone checking this flag before we activate any stop trigger.\n\tm.stopFlag.Set()\n\n\t// Cancel the context to notify all workers and tasks.\n\tm.cancelCtx()\n",
+    "\t// Set stop flag for everyone checking this flag before we activate any stop trigger.\n\tm.stopFlag.Set()\n\n\t// Cancel the context to notify all workers and tasks.\n\tm.cancelCtx()\n\tm.ctrlFuncRunning.Set()\n",
+    "C01-R8|modules.(*Module).stopAllTasks / ctrlFuncRunning.Set() before stopFlag.Set()", comment="round-2 seed C01-b1")
 mut("C01", "r6-stop-ignores-waiting", "modules/stop.go",
     "\t\t\tif waiting > 0 {\n\t\t\t\t// check for dep loop\n\t\t\t\treturn fmt.Errorf(\"modules: dependency loop detected, cannot continue\")\n\t\t\t}\n\t\t\t// return last error\n\t\t\treturn lastErr", "\t\t\tif waiting > startedCnt {\n\t\t\t\t// check for dep loop\n\t\t\t\treturn fmt.Errorf(\"modules: dependency loop detected, cannot continue\")\n\t\t\t}\n\t\t\t// return last error\n\t\t\treturn lastErr", "C01-R6|stopModules")
 
@@ -585,3 +591,17 @@ mut("C20", "r4-shutdown-no-wait", "log/logging.go",
 
 mut("C02", "r7-fstree-delete-absent-error", "database/storage/fstree/fstree.go",
     "\tif err != nil && !errors.Is(err, fs.ErrNotExist) {\n\t\treturn fmt.Errorf(\"fstree: could not delete %s: %w\", dstPath, err)", "\tif err != nil {\n\t\treturn fmt.Errorf(\"fstree: could not delete %s: %w\", dstPath, err)", "C02-R7|fstree.(*FSTree).Delete", comment="reverts fix aed71ac")
+
+# ---- round-2 strengthening ----------------------------------------------------
+mut("C02", "r8-walkroot-file", "database/storage/fstree/fstree.go",
+    "\tcase err == nil:\n\t\twalkRoot = filepath.Dir(walkPrefix)", "\tcase err == nil:\n\t\twalkRoot = walkPrefix", "C02-R8|database/storage/fstree.(*FSTree).Query / walk root", comment="round-2 seed C02-b1")
+mut("C04", "r6-save-release-gated", "config/persistence.go",
+    "\t\tif option.activeValue != nil {\n\t\t\tactiveValues[key]", "\t\tif option.ReleaseLevel <= getReleaseLevel() && option.activeValue != nil {\n\t\t\tactiveValues[key]", "C04-R6|config.SaveConfig / every option with a user-set value is saved", comment="round-2 seed C04-b1")
+mut("C04", "r6-save-default-layer", "config/persistence.go",
+    "activeValues[key] = option.activeValue.getData(option)", "activeValues[key] = option.activeDefaultValue.getData(option)", "C04-R6|config.SaveConfig / saved entry")
+mut("C04", "r6-save-other-map", "config/persistence.go",
+    "data, err := MapToJSON(activeValues)", "data, err := MapToJSON(map[string]interface{}{})", "C04-R6|config.SaveConfig / saved map is encoded")
+mut("C06", "r2-ctrlfn-finish-before-recover", "modules/worker.go",
+    "\t\t\t// recover from panic\n\t\t\tpanicVal := recover()", "\t\t\tm.ctrlFuncRunning.UnSet()\n\t\t\tm.checkIfStopComplete()\n\t\t\t// recover from panic\n\t\t\tpanicVal := recover()", "C06-R2|modules.(*Module).startCtrlFn$1 / panic error sent before completion is signalled", comment="round-2 seed C06-b1")
+mut("C06", "r6-handler-calls-error-method", "modules/error.go",
+    "Message:    fmt.Sprintf(\"panic: %s\", panicValue),", "Message:    func() string {\n\t\t\tif e, ok := panicValue.(error); ok {\n\t\t\t\treturn \"panic: \" + e.Error()\n\t\t\t}\n\t\t\treturn fmt.Sprintf(\"panic: %s\", panicValue)\n\t\t}(),", "C06-R6|", comment="round-2 seed C06-b2")
